@@ -82,6 +82,8 @@ type VC struct {
 	entry         *State
 	entryAtLock   bool
 	entryAlloc    string
+	retBlock      *ssa.BasicBlock // the return being checked (for postconditions that mention locals)
+	retInstr      ssa.Instruction
 	rootMods      []Loc
 	rootModsAll   bool // function may modify anything (no frame checking): only for `noframe`
 	assumptions   []string
@@ -393,6 +395,12 @@ func (vc *VC) typeFacts(t types.Type, v SV) {
 	for j, li := range ls {
 		switch li.Kind {
 		case kRef:
+			if vc.isU64ViewBase(t, li) {
+				// a []uint64 may be the reinterpreted view of a byte array (gcU64): its reference is
+				// then the negated reference of that array
+				vc.assume(fmt.Sprintf("(and (<= (- 0 %s) %s) (<= %s %s))", vc.st.Alloc, v.L[j], v.L[j], vc.st.Alloc))
+				break
+			}
 			vc.assume(fmt.Sprintf("(and (<= 0 %s) (<= %s %s))", v.L[j], v.L[j], vc.st.Alloc))
 		}
 		if strings.HasSuffix(li.Path, ".len") && j+1 < len(ls) && strings.HasSuffix(ls[j+1].Path, ".cap") && li.Kind == kBV {
@@ -462,7 +470,11 @@ func nestedStore(cur string, idx []string, v string) string {
 // ---- frames (modifies) ---------------------------------------------------------
 
 func (vc *VC) isFreshRef(ref string) string {
-	return fmt.Sprintf("(> %s %s)", ref, vc.entryAlloc)
+	if ref == "*" {
+		return "false"
+	}
+	// a negative reference is the word view (gcU64) of the byte array with the opposite reference
+	return fmt.Sprintf("(or (> %s %s) (< %s (- 0 %s)))", ref, vc.entryAlloc, ref, vc.entryAlloc)
 }
 
 // sliceProv records how a slice value was cut from another one, so that frame
@@ -851,4 +863,31 @@ func (vc *VC) byteViewWord(lv *LVal) (word, h, eidx, shift string) {
 	word = vc.def(bvSort(64), sel(sel(h, lv.Ref), eidx))
 	shift = vc.def(bvSort(64), "(bvshl (bvand "+lv.BOff+" (_ bv7 64)) (_ bv3 64))")
 	return
+}
+
+// isU64ViewBase: the leaf is the base reference of a slice that may be a word view (gcU64) of a byte
+// array: a value of the named type z.node anywhere, or a []uint64 inside z/btree.go (what
+// BytesToUint64Slice returns).  Every other []uint64 (the Bloom filter's bit set, ...) is an
+// ordinary allocated array.
+func (vc *VC) isU64ViewBase(t types.Type, li leafInfo) bool {
+	if !isU64SliceBase(t, li) {
+		return false
+	}
+	if n, ok := t.(*types.Named); ok {
+		return n.Obj().Name() == "node" && n.Obj().Pkg() != nil && strings.HasSuffix(n.Obj().Pkg().Path(), "/z")
+	}
+	if vc.root != nil && vc.eng != nil && vc.eng.fset != nil {
+		return strings.HasSuffix(vc.eng.fset.Position(vc.root.Pos()).Filename, "/z/btree.go")
+	}
+	return false
+}
+
+// isU64SliceBase: the leaf is the base reference of a value whose type is a slice of uint64.
+func isU64SliceBase(t types.Type, li leafInfo) bool {
+	sl, ok := t.Underlying().(*types.Slice)
+	if !ok {
+		return false
+	}
+	b, ok := sl.Elem().Underlying().(*types.Basic)
+	return ok && b.Kind() == types.Uint64 && !strings.Contains(li.Path, ".len") && !strings.Contains(li.Path, ".cap")
 }
